@@ -481,15 +481,20 @@ PROPERTIES OnlyOwnDir
 CHECK_DEADLOCK FALSE
 """
 DYN_NAMES = {"go", "go+reflection", "fastgo+no_fmt", "go/dump", "go+reflection/patch", "go/flat"}   # MC_Determinism!DynNames
+FULL_NAMES = {"go+reflection", "fastgo+no_fmt", "go/dump"}      # MC_Determinism!CfgFull
 PROG_WEIGHTS = {"ProgsW1": {0, 1}, "ProgsW1Low": {0, 1}, "ProgsW2": {0, 1, 2}, "ProgsFull": {99}}
 MC_RUNS = {
     "quick": [dict(layer="A", progs="ProgsW1Low", cfgs="CfgDyn", perm=2, jobs=2, stale="StaleBoth"),
               dict(layer="B", progs="ProgsW1Low", cfgs="CfgDyn", perm=2, jobs=2, stale="StaleBoth")],
-    "thorough": [dict(layer="A", progs="ProgsW1", cfgs="CfgQuick", perm=3, jobs=3, stale="StaleAny"),
-                 dict(layer="B", progs="ProgsW1", cfgs="CfgQuick", perm=3, jobs=3, stale="StaleAny"),
+    "thorough": [dict(layer="A", progs="ProgsW1", cfgs="CfgQuick", perm=2, jobs=2, stale="StaleBoth"),
+                 dict(layer="B", progs="ProgsW1", cfgs="CfgQuick", perm=2, jobs=2, stale="StaleBoth"),
+                 dict(layer="A", progs="ProgsW1Low", cfgs="CfgDyn", perm=3, jobs=2, stale="StaleBoth"),
+                 dict(layer="B", progs="ProgsW1Low", cfgs="CfgDyn", perm=3, jobs=2, stale="StaleBoth"),
+                 dict(layer="A", progs="ProgsW1Low", cfgs="CfgDyn", perm=2, jobs=3, stale="StaleAny"),
+                 dict(layer="B", progs="ProgsW1Low", cfgs="CfgDyn", perm=2, jobs=3, stale="StaleAny"),
                  dict(layer="A", progs="ProgsW2", cfgs="CfgDyn", perm=2, jobs=2, stale="StaleBoth"),
                  dict(layer="B", progs="ProgsW2", cfgs="CfgDyn", perm=2, jobs=2, stale="StaleBoth"),
-                 dict(layer="B", progs="ProgsFull", cfgs="CfgDyn", perm=2, jobs=2, stale="StaleBoth")],
+                 dict(layer="B", progs="ProgsFull", cfgs="CfgFull", perm=2, jobs=2, stale="StaleBoth")],
 }
 
 
@@ -523,6 +528,8 @@ def model_check(ctx, cases_by_key):
         # ... and for every leaky pair of the explored sets
         for (cn, pk), c in cases_by_key.items():
             if r["progs"] == "ProgsW1Low" and 8 in [c["p"][f] for f in ("ann", "ns", "mapConst", "mapDefault", "inc", "defs")]:
+                continue
+            if r["cfgs"] == "CfgFull" and cn not in FULL_NAMES:
                 continue
             if c["weight"] in PROG_WEIGHTS[r["progs"]] and (r["cfgs"] == "CfgQuick" or cn in DYN_NAMES) \
                     and c["cfg"]["name"] != "s" and c["leaky"] and (cn, pk) not in div:
@@ -591,6 +598,25 @@ def replacer_conformance(ctx):
 SITE_OBJECT = {"refl": "refl", "fastgo": "fast", "plugin": "stdin", "go": "code", "fm": "code"}
 
 
+def check_vacuity(cases):
+    """the generated universe must contain what the property is about"""
+    reached_sites = {r_["site"] for c in cases for r_ in c["reached"]}
+    need = {"refl.ann.decl", "refl.ann.member", "refl.namespaces", "refl.includes", "refl.constmap",
+            "refl.defaultmap", "go.imports", "go.stdlibs", "go.throws", "fastgo.imports", "fastgo.fields",
+            "fm.replacer", "plugin.names", "persist.jobs"}
+    if not need <= reached_sites:
+        raise vlib.MachineryError("vacuous universe: sites never reached: %s" % sorted(need - reached_sites))
+    for s in need:
+        ks = {r_["keys"] for c in cases for r_ in c["reached"] if r_["site"] == s}
+        if max(ks) < 8 and s not in ("go.throws",):
+            raise vlib.MachineryError("vacuous universe: site %s never walked with >= 8 keys" % s)
+    if not any(not c["risky"] for c in cases):
+        raise vlib.MachineryError("vacuous universe: no non-risky control case")
+    for pl in ("dump", "patch"):
+        if not any(c["cfg"]["plugin"] == pl for c in cases):
+            raise vlib.MachineryError("vacuous universe: no case with plugin=%s" % pl)
+
+
 def run(ctx, args):
     tier = TIERS[ctx.tier]
     thriftgo = ctx.build_repo(".", "thriftgo")
@@ -627,6 +653,12 @@ def run(ctx, args):
         n = tier["n"]
         if not cases:
             raise vlib.MachineryError("TLC emitted no cases")
+        check_vacuity(cases)
+        frac = os.environ.get("C07_DEV_SAMPLE")     # development aid only (never set by the registered commands)
+        if frac:
+            rnd = random.Random(ctx.seed)
+            cases = [c for c in cases if rnd.random() < float(frac) or c["weight"] == 99]
+            ctx.notes.append("C07_DEV_SAMPLE=%s: a random sample of the universe was executed" % frac)
         dev = os.environ.get("C07_DEV_CONFIGS")     # development aid only (never set by the registered commands)
         if dev:
             cases = [c for c in cases if c["cfg"]["name"] in dev.split(",")]
@@ -634,21 +666,6 @@ def run(ctx, args):
     for c in cases:
         c["leaky_objects"] = sorted({SITE_OBJECT.get(s.split(".")[0], "tree") for s in c["leaky"]})
     by_key = {(c["cfg"]["name"], pkey(c["p"])): c for c in cases}
-
-    if not args.replay and not os.environ.get("C07_DEV_CONFIGS"):
-        # vacuity of the universe: every site of the table is reached by some case, every dimension at >= 2 and at Many keys
-        reached_sites = {r_["site"] for c in cases for r_ in c["reached"]}
-        need = {"refl.ann.decl", "refl.ann.member", "refl.namespaces", "refl.includes", "refl.constmap",
-                "refl.defaultmap", "go.imports", "go.stdlibs", "go.throws", "fastgo.imports", "fastgo.fields",
-                "fm.replacer", "plugin.names", "persist.jobs"}
-        if not need <= reached_sites:
-            raise vlib.MachineryError("vacuous universe: sites never reached: %s" % sorted(need - reached_sites))
-        for s in need:
-            ks = {r_["keys"] for c in cases for r_ in c["reached"] if r_["site"] == s}
-            if max(ks) < 8 and s not in ("go.throws",):
-                raise vlib.MachineryError("vacuous universe: site %s never walked with >= 8 keys" % s)
-        if not any(not c["risky"] for c in cases):
-            raise vlib.MachineryError("vacuous universe: no non-risky control case")
 
     # step 3: bind feature vectors to concrete programs
     for c in cases:
